@@ -14,7 +14,7 @@ import tempfile
 
 from mc.engine import hbfs, par
 from mc.engine.report import Violation
-from mc.engine.seams import reset_library
+from mc.engine.seams import reset_library, ambient_logger
 
 import ECAgent.Core as Core
 from ECAgent.Collectors import Collector
@@ -56,7 +56,7 @@ NESTED = {'decoder': None, 'path': None}
 class FxModel(Core.Model, IDecodable):
     @staticmethod
     def decode(params):
-        m = FxModel()
+        m = ambient_logger(FxModel())
         LOG.append(['model', dict(params), id(m)])
         if params.get('complete'):
             m.complete()          # e.g. a description that restores a finished run
@@ -98,7 +98,7 @@ def fx_provide(params):
     class FxLateModel(FxModel):
         @staticmethod
         def decode(params):
-            m = FxLateModel()
+            m = ambient_logger(FxLateModel())
             LOG.append(['model', dict(params), id(m)])
             return m
     mod.FxLateModel = FxLateModel
@@ -431,6 +431,10 @@ def chunk_fn(ctx, chunk):
             ctx.report(case, v)
             if ctx.full():
                 return
+
+
+# the cheap legs run once more under the runner's ambient configurations (python -O, other logger levels)
+AMBIENT_LEGS = True
 
 
 def run(ctx):
